@@ -203,6 +203,35 @@ theorem C04_shuffle_do_and_groupby_do_exactly_once (script : Aid → List Action
     rw [(C04_groupby_do_is_regrouped_walk script arg key w t).1]
     exact ⟨h.1, h.2.1, h.2.2.2⟩
 
+/-- **An activation leaves the set's own order untouched** (program-made sets; for `model.agents` and the by-type sets the
+    order after any history is fixed by C02's `C02_creation_order_unless_reordered`, for which no activation counts as a
+    reordering).  Whatever the callbacks remove, create or drop — as long as they do not themselves edit sets —, after
+    `do`, `shuffle_do`, `map` and `GroupBy.do` every program-made set has exactly the key list it had before the call:
+    `shuffle_do` shuffles a private copy only, and what the set shows afterwards is its old order minus the dead. -/
+theorem C04_activation_leaves_program_made_sets_as_they_are (script : Aid → List Action)
+    (hne : ∀ a, ∀ act ∈ script a, act.isSetEdit = false) (arg : Nat) (ret : Aid → Nat → Nat) (key : Aid → Nat)
+    (w : World) (t : Target) :
+    (doSet script arg w t).sets = w.sets ∧ (shuffleDo script arg w t).sets = w.sets ∧
+    (mapSet script arg ret w t).1.sets = w.sets ∧ (groupDo script arg key w t).sets = w.sets ∧
+    ∀ k, (∀ a ∈ rawMembers w (.set k), a < w.info.length) →
+      members (shuffleDo script arg w t) (.set k) = (members w (.set k)).filter (alive (shuffleDo script arg w t)) := by
+  have hsd : (shuffleDo script arg w t).sets = w.sets := by
+    simp only [shuffleDo]; rw [walk_sets script hne, setRng_sets]
+  refine ⟨walk_sets script hne arg w _, hsd, ?_, ?_, fun k hk => ?_⟩
+  · rw [(C04_map_results_aligned script arg ret w t).1]; exact walk_sets script hne arg w _
+  · rw [(C04_groupby_do_is_regrouped_walk script arg key w t).1]; exact walk_sets script hne arg w _
+  · have hle : Le w (shuffleDo script arg w t) := by
+      simp only [shuffleDo]
+      refine Le.trans ⟨⟨[], by simp [setRng_info]⟩, fun a _ h => by rw [setRng_alive] at h; exact h⟩ (le_walk script arg _ _)
+    have hraw : rawMembers (shuffleDo script arg w t) (.set k) = rawMembers w (.set k) := by
+      simp only [rawMembers, hsd]
+    simp only [members, hraw, List.filter_filter]
+    apply List.filter_congr
+    intro a ha
+    cases h1 : alive (shuffleDo script arg w t) a with
+    | false => simp
+    | true => simp [hle.dead a (hk a ha) h1]
+
 /-! ### callbacks that raise, callbacks that edit the activated set -/
 
 /-- **A callback that raises ends the call at the raiser.**  Whatever the callbacks do and whichever of them raise,
@@ -303,6 +332,12 @@ private def demoEdits : Aid → List Action
   | 0 => [.discardFrom 0 2, .addTo 0 4]
   | 1 => [.discardFrom 0 1]
   | _ => []
+
+/-- `shuffle_do` under churn (`demoScript` removes agents 2, 1, 3, 0 and creates one): the program-made set keeps its key
+    list; afterwards it shows its old order minus the dead (1 is held, 0 2 3 died) -/
+example : (shuffleDo demoScript 7 demoSetWorld (.set 0)).sets = demoSetWorld.sets ∧
+    members (shuffleDo demoScript 7 demoSetWorld (.set 0)) (.set 0) = [1] ∧
+    (∀ a, a < 6 → ∀ act ∈ demoScript a, act.isSetEdit = false) := by decide
 
 example : visited demoEdits 7 demoSetWorld (members demoSetWorld (.set 0)) = [0, 1, 2, 3] ∧
     members (doSet demoEdits 7 demoSetWorld (.set 0)) (.set 0) = [0, 3, 4] ∧
